@@ -254,3 +254,11 @@ def lemma_pow2_le(a, b):
 
 
 HINT_LEMMAS += [lemma_pow2_le]
+
+
+def lemma_mul_eq2(a, b, c, d):
+    """a == b, c == d  ->  a*c == b*d   (congruence of products, spelled out for the solver)"""
+    return implies(a == b and c == d, a * c == b * d)
+
+
+HINT_LEMMAS += [lemma_mul_eq2]
